@@ -106,6 +106,12 @@ structure VarSpec where
       (before the repair of F15-7 `gta` typed the specification when it met it and did not come
       back: "assignment mismatch: 2 variables but f returns 0 values") -/
   calleeLater : Bool := false
+  /-- only for `var v, ok = m[k]` and `var v, ok = <-c` (package-level comma-ok declarations,
+      accepted since 2d7bcd6): the map / channel variable is declared later in the source than this
+      specification. `compDefineX`, called by `gta` when it meets the specification, needs the type
+      of that operand at once — only a *call* source is retried — and stops the interpreter with a Go
+      panic ("incomplete type", "nil type"): finding F15-9. -/
+  operandLater : Bool := false
   deriving DecidableEq, Repr
 
 /-- `defineXStmt`: several names, one multi-valued expression -/
@@ -172,7 +178,7 @@ structure DepFacts where
 /-- `splitVarSpecs` (interp/ast.go) on one specification: `a, b = x, y` becomes `a = x`, `b = y`;
     anything else (`len(vs.Names) < 2 || len(vs.Values) != len(vs.Names)`) is kept -/
 def splitSpec (v : VarSpec) : List VarSpec :=
-  if v.paired then (v.names.zip v.inits).map (fun ni => ⟨[ni.1], [ni.2], false⟩) else [v]
+  if v.paired then (v.names.zip v.inits).map (fun ni => ⟨[ni.1], [ni.2], false, false⟩) else [v]
 
 /-- the specifications the ordering code sees (the list `getVars` builds) -/
 def specsY (d : DepFacts) (vars : List VarSpec) : List VarSpec :=
@@ -321,10 +327,15 @@ def runSteps (order : Res) (p : Pkg) : Bool → List String → Trace
       ⟨p.inits ++ (if mainIn then p.main.toList else []) ++ t.events, t.err⟩
     else runSteps order p mainIn rest
 
+/-- a comma-ok declaration stands before the declaration of its map / channel operand
+    (`VarSpec.operandLater`): `gta` panics -/
+def operandLate (p : Pkg) : Bool := p.vars.any (fun v => v.multi && v.operandLater)
+
 /-- `gta` fails before anything runs: a multi-value declaration whose callee is declared later,
-    unless `gta` comes back to it (see `VarSpec.calleeLater`, `DepFacts.multiRetry`) -/
+    unless `gta` comes back to it (see `VarSpec.calleeLater`, `DepFacts.multiRetry`); a comma-ok
+    declaration whose operand is declared later -/
 def gtaRejects (d : DepFacts) (p : Pkg) : Bool :=
-  !d.multiRetry && p.vars.any (fun v => v.multi && v.calleeLater)
+  (!d.multiRetry && p.vars.any (fun v => v.multi && v.calleeLater)) || operandLate p
 
 /-- `Eval` of a complete file = `CompileAST` (which appends `main` to the init list) then
     `Execute`: the root node (declarations only, logs nothing), the ordered global variables, the
